@@ -53,6 +53,20 @@ fn verif_span_edits(span_edits: &[SpanEdit]) -> serde_json::Value {
 }
 
 pub(crate) fn format(src: &str, path: &Path) -> String {
+    let formatted = format_pass(src, path);
+
+    // The spacing fixes can push a signature over the length limit
+    // (e.g. `x:Int` becomes `x: Int`), and signatures are wrapped
+    // first. Run another pass in that case, so formatting the result
+    // again doesn't change it.
+    if wrap_long_signatures(&formatted, path) == formatted {
+        formatted
+    } else {
+        format_pass(&formatted, path)
+    }
+}
+
+fn format_pass(src: &str, path: &Path) -> String {
     // Phase 0: Wrap long single-line function/method signatures onto
     // multiple lines before any other formatting. This requires
     // re-parsing afterwards because line numbers and offsets shift.
